@@ -204,15 +204,21 @@ def strict_equivalent(node, ref):
             ast.dump(d) for d in ref.decorator_list]:
         return False
     ref._ctx_from = node
-    try:
-        opaque = tuple(sym.TRANSPARENT_CALLS)
-        a = set(signature(p, strict=True)
-                for p in sym.Summarizer(opaque=opaque).summarize(node))
-        b = set(signature(p, strict=True)
-                for p in sym.Summarizer(opaque=opaque).summarize(ref))
-    except AnalysisError:
-        return False
-    return equivalent(a, b)
+
+    def once():
+        try:
+            opaque = tuple(sym.TRANSPARENT_CALLS)
+            a = set(signature(p, strict=True)
+                    for p in sym.Summarizer(opaque=opaque).summarize(node))
+            b = set(signature(p, strict=True)
+                    for p in sym.Summarizer(opaque=opaque).summarize(ref))
+        except AnalysisError:
+            return False
+        return equivalent(a, b)
+    if once():
+        return True
+    with sym.inline_all():
+        return once()
 
 
 def show_sig(sig):
@@ -279,7 +285,7 @@ def rename_params(ref, actual):
 
 
 def compare(func, ref_text, keep_raise_args=False, ignore_attr_stores=(),
-            transparent=None):
+            transparent=None, second_chance=True):
     """Returns (ok, only_in_code, only_in_reference) as printable lists."""
     ref = parse_ref(ref_text)
     ref = rename_params(ref, func)
@@ -299,6 +305,20 @@ def compare(func, ref_text, keep_raise_args=False, ignore_attr_stores=(),
             for p in sym.Summarizer(transparent=transparent).summarize(ref))
     if equivalent(a, b):
         return (not extra), extra, []
+    try:
+        if not second_chance:
+            raise AnalysisError('skipped')
+        with sym.inline_all():
+            a2 = set(signature(p, keep_raise_args, ignore_attr_stores)
+                     for p in sym.Summarizer(
+                         transparent=transparent).summarize(func))
+            b2 = set(signature(p, keep_raise_args, ignore_attr_stores)
+                     for p in sym.Summarizer(
+                         transparent=transparent).summarize(ref))
+        if equivalent(a2, b2):
+            return (not extra), extra, []
+    except AnalysisError:
+        pass
     only_a = sorted(show_sig(s) for s in a - b)
     only_b = sorted(show_sig(s) for s in b - a)
     return False, extra + only_a, only_b
@@ -308,11 +328,16 @@ def check(chk, rule, rel, func, ref_text, what, key=None, **kw):
     """ref_text: one reference or a list of accepted alternatives."""
     refs = [ref_text] if isinstance(ref_text, str) else list(ref_text)
     for r in refs:
-        ok, oa, ob = compare(func, r, **kw)
+        ok, oa, ob = compare(func, r, second_chance=False, **kw)
         if ok:
             break
     else:
-        ok, oa, ob = compare(func, refs[0], **kw)
+        for r in refs:
+            ok, oa, ob = compare(func, r, **kw)
+            if ok:
+                break
+        else:
+            ok, oa, ob = compare(func, refs[0], second_chance=False, **kw)
     chk.ob(rule, ok, rel, func, key=key or ('ref:' + func.name), what=what,
            found=' || '.join(oa)[:900] if oa else None,
            required=' || '.join(ob)[:900] if ob else None)
